@@ -1006,8 +1006,22 @@ Fixpoint iilog (dbg : bool) (w N : Z) (fuel : nat) (m : Z) (b : list Z) (k : lis
   )
   end.
 
-(* src/buint/checked.rs: fn checked_ilog10  -- NOT TRANSLATED: in fn checked_ilog10: unsupported ExpType operator * *)
-Definition checked_ilog10 : unit := tt.
+(* src/buint/checked.rs: fn checked_ilog10 *)
+Definition checked_ilog10 (dbg : bool) (w N : Z) (fuel : nat) (self : list Z) : res (option Z) :=
+  t1' <- is_zero w N fuel self ;;
+  if t1' then (
+    Done None
+  ) else (
+    t2' <- from_digit w N fuel 10 ;;
+    if (cmp_gt (ucmp t2' self)) then (
+      Done (Some 0)
+    ) else (
+      t3' <- from_digit w N fuel 10 ;;
+      t4' <- div_rem_digit w N fuel self 10 ;;
+      t5' <- iilog dbg w N fuel 1 t3' (fst t4') ;;
+      Done (Some (fst t5'))
+    )
+  ).
 
 (* src/buint/checked.rs: fn checked_ilog *)
 Definition checked_ilog (dbg : bool) (w N : Z) (fuel : nat) (self : list Z) (base : list Z) : res (option Z) :=
